@@ -1,5 +1,4 @@
-\* flush / close of ONE Elasticsearch store under every outcome of the _bulk requests (two chunks, one retry), re-open after a failed close;
-\* repaired variant (records carry a client-generated _id): every invariant holds
+\* self-test: put_doc as it is drops the caller's meta_data when the scope has no meta info (or level is None) -> InvMetaData is violated
 SPECIFICATION Spec
 CONSTANTS
   TypeOf <- TEsEs
@@ -7,24 +6,24 @@ CONSTANTS
   HasTrackParams <- TPdrv
   Keys <- K1
   TagKey = "tag_u"
-  Vals <- V1
+  Vals <- V12
   Nodes <- N1
   Ctxs <- CtxOne
   WorldsOf <- WorldsOne
-  PutArgs <- PutOne
+  PutArgs <- PutMeta
   ChunkSize = 2
   MaxRetries = 1
-  Alpha <- AlphaAll
-  RefreshAlpha <- RBoth
-  MaxRecs = 3
+  Alpha <- AlphaOk
+  RefreshAlpha <- ROk
+  MaxRecs = 1
   MaxClock = 0
-  MaxMeta = 0
-  MaxCalls = 3
-  MaxOpens = 2
+  MaxMeta = 1
+  MaxCalls = 1
+  MaxOpens = 1
   ExplicitRel = 5
   ExplicitAbs = 7
-  IdempotentIds = TRUE
-  DocMetaAlways = TRUE
+  IdempotentIds = FALSE
+  DocMetaAlways = FALSE
 VIEW view
 INVARIANT TypeOK
 INVARIANT InvNoLoss
